@@ -9,11 +9,12 @@ import time
 
 ROOT = os.path.dirname(os.path.dirname(os.path.abspath(__file__)))
 REPO = "/repo"
+ENV = dict(os.environ)
 
 
 def run_check(pid):
     t = time.time()
-    p = subprocess.run([os.path.join(ROOT, "check"), pid], capture_output=True, text=True, cwd=ROOT)
+    p = subprocess.run([os.path.join(ROOT, "check"), pid], capture_output=True, text=True, cwd=ROOT, env=ENV)
     first = [ln for ln in p.stdout.splitlines() if ln.startswith(("VIOLATION", "UNDECIDED", "CHECKER", "OK", "KNOWN"))]
     ob = [ln.strip() for ln in p.stdout.splitlines() if ln.strip().startswith("obligation:")]
     return p.returncode, (first[:2] + ob[:1]), time.time() - t
@@ -22,6 +23,23 @@ def run_check(pid):
 def main():
     import shutil
     import tempfile
+    global REPO
+    if "--scratch" in sys.argv:
+        # work on a scratch worktree of /repo's HEAD and write evidence/replays elsewhere, so that /repo and
+        # /verif/evidence stay untouched and other checks can run meanwhile
+        wt = tempfile.mkdtemp(prefix="mut_wt_")
+        out = tempfile.mkdtemp(prefix="mut_out_")
+        subprocess.run(["git", "-C", "/repo", "worktree", "add", "--detach", "-f", wt, "HEAD"], check=True,
+                       capture_output=True)
+        REPO = wt
+        ENV.update(VERIF_REPO=wt, VERIF_OUT=out, PYTHONPATH=wt)
+        try:
+            _main()
+        finally:
+            subprocess.run(["git", "-C", "/repo", "worktree", "remove", "--force", wt])
+            subprocess.run(["git", "-C", "/repo", "worktree", "prune"])
+            shutil.rmtree(out, ignore_errors=True)
+        return
     # evidence files must always come from runs on the unchanged tree: save them and put them back
     bak = tempfile.mkdtemp(prefix="evid_bak_")
     shutil.copytree(os.path.join(ROOT, "evidence"), os.path.join(bak, "evidence"))
